@@ -212,6 +212,10 @@ class FramingDriver:
         self.other.setAuthenticationSucceeded()
         self.other_stream = refwire.msg(4, 77, [('path', '/other'), ('interface', 'o.o'), ('member', 'Never')], 's', ['z' * 200])
         self.other_pos = 0
+        try:
+            self.other.fileDescriptorReceived(FD0 + 900)      # ... and a descriptor of its own, waiting for its message
+        except Exception:
+            pass
 
     def apply(self, name, args):
         if name == 'Read':
